@@ -9,7 +9,8 @@ mypyc/irbuild/constant_fold.py).  Floats are opaque (`Res.float`).
 * `fold_sound`        binary operators: a folded result is CPython's result (value and type)
 * `fold_exact`        binary operators: the folder returns the value `v` ⇔ CPython evaluates to `v`
 * `fold_float_iff`    the folder returns a float ⇔ the operator is `/` and CPython does not raise
-* `not_fold_unary_exact` / `fold_unary_partial`   unary `+` on a `bool` returns the `bool`, CPython the `int`
+* `fold_unary_exact_status` / `not_fold_unary_exact` / `fold_unary_partial`   the full unary statement holds
+                      iff the folder under check does not return the `bool` operand for `+` (F25; generated constant)
 * `foldExpr_sound_partial` / `not_foldExpr_sound` the same for whole expression trees
 * `py_*`              the integer operations used as CPython's semantics satisfy the language reference's
                       defining properties (so the model of CPython is CPython's definition, not ours)
@@ -178,12 +179,32 @@ theorem not_fold_exact_all :
 
 /-! ## unary operators -/
 
-/-- the full statement is false of the current code: `constant_fold_unary_op("+", True)` returns `True`,
-    CPython's `+True` is the `int` 1 (mypy then reports `X: Final = +True` as an incompatible assignment) -/
-theorem not_fold_unary_exact :
-    ¬ (∀ (ext : Bool) (op : UOp) (v : Val) (r : Res), foldUn ext op v = some r → pyUnary op v = .ok r) := by
-  intro h
-  exact absurd (h false .pos (.bool true) (.val (.bool true)) rfl) (by decide)
+/-- the full unary statement: whatever the folder returns is what CPython computes -/
+def UnaryExact : Prop :=
+  ∀ (ext : Bool) (op : UOp) (v : Val) (r : Res), foldUn ext op v = some r → pyUnary op v = .ok r
+
+/-- **fold_unary_exact_status** — the full unary statement holds exactly when the folder under check
+    (generated constant `Cfg.unaryPlusOnBoolKeepsBool`, translate/c12fold.py) does *not* return the bool
+    operand for `+`.  In the code as found `constant_fold_unary_op("+", True)` returns `True`, CPython's
+    `+True` is the `int` 1 (mypy then rejects `X: Final = +True` as an incompatible assignment): F25. -/
+theorem fold_unary_exact_status : UnaryExact ↔ Cfg.unaryPlusOnBoolKeepsBool = false := by
+  constructor
+  · intro h
+    cases hc : Cfg.unaryPlusOnBoolKeepsBool with
+    | false => rfl
+    | true =>
+      have := h false .pos (.bool true) (.val (.bool true)) (by simp [foldUn, foldUnary, Val.isBytes, hc])
+      exact absurd this (by decide)
+  · intro hc ext op v r h
+    unfold foldUn at h
+    cases ext <;> cases op <;> cases v <;>
+      simp [foldUnary, pyUnary, Val.asInt, Val.isBytes, hc] at h ⊢ <;> first | exact h | (subst h; rfl)
+
+/-- `not_fold_unary_exact` for the code as found -/
+theorem not_fold_unary_exact (h : Cfg.unaryPlusOnBoolKeepsBool = true) : ¬ UnaryExact := by
+  intro hu
+  rw [fold_unary_exact_status, h] at hu
+  cases hu
 
 def PlusOnBool (op : UOp) (v : Val) : Prop := op = .pos ∧ ∃ b, v = .bool b
 
@@ -277,10 +298,12 @@ theorem foldExpr_sound_partial (ext : Bool) (e : Expr) : ∀ (r : Res), PlusBool
         simp only [pyEval, e1]
         exact foldUn_sound_partial ext op a res (hp.2 a he) h
 
-theorem not_foldExpr_sound :
+theorem not_foldExpr_sound (hc : Cfg.unaryPlusOnBoolKeepsBool = true) :
     ¬ (∀ (ext : Bool) (e : Expr) (r : Res), foldExpr ext e = some r → pyEval e = .ok r) := by
   intro h
-  exact absurd (h true (.un .pos (.ref true (.bool true))) (.val (.bool true)) rfl) (by decide)
+  have := h true (.un .pos (.ref true (.bool true))) (.val (.bool true))
+    (by simp [foldExpr, foldUn, foldUnary, Val.isBytes, hc])
+  exact absurd this (by decide)
 
 /-! ## the integer operations are Python's (language reference §6.6–6.9) -/
 
